@@ -224,6 +224,16 @@ def xc_comp_len_small(a):
     return len([i for i in range(a)])
 
 
+def xc_acc_continue_small(a, b, p):
+    out = []
+    for i in range(a):
+        if i == b:
+            if not p:
+                continue
+        out.append(i)
+    return len(out)
+
+
 def xc_early_return(a, b):
     for_x = a
     if for_x == b:
